@@ -85,8 +85,9 @@
 (* promises nothing - `free` below), a reply that arrives later than Timeout *)
 (* before any check has counted the request (only possible while stopped),   *)
 (* whether a session already declared dead (ska: "termination should be      *)
-(* handled by the caller") is sent further requests, the reason string, the  *)
-(* order of callbacks.  Identifiers are only compared for equality; the      *)
+(* handled by the caller") is sent further requests when it is idle, has     *)
+(* nothing outstanding and LCP is Opened (never otherwise), the reason       *)
+(* string, the order of callbacks.  Identifiers are only compared for equality; the      *)
 (* harness reports them relative to the identifier counter at the beginning  *)
 (* of the step (`sh` = how far the counter moved during the step).           *)
 (***************************************************************************)
@@ -166,8 +167,9 @@ Exp(cfg, g, e, s) ==
   IN [tick |-> tick, to |-> to, fail |-> fail1, wasDead |-> wasDead, dies |-> dies, waiting |-> waiting,
       \* 1 / 0 = exactly one / no request at this check, -1 = the contract is silent
       echo |-> IF ~tick \/ ~x.mon THEN 0
+               ELSE IF waiting \/ idle1 < cfg.idle \/ ~g.opened THEN 0
                ELSE IF wasDead \/ dies THEN (IF IsMgr(cfg) THEN 0 ELSE -1)
-               ELSE IF waiting \/ idle1 < cfg.idle \/ ~g.opened THEN 0 ELSE 1,
+               ELSE 1,
       valid |-> idok /\ ~e.loop /\ intime,
       free  |-> idok /\ (e.loop \/ ~intime)]
 
